@@ -16,6 +16,7 @@ import OFV.Proofs.C03Exact
 import OFV.Proofs.C02Real
 import OFV.Proofs.C02PauliHerm
 import OFV.Proofs.C02MajComm
+import OFV.Proofs.C02HermIO
 
 namespace OFV.C02
 open OFV OFV.Model OFV.Model.C02 OFV.Proofs.C02
@@ -423,5 +424,26 @@ theorem commutes_with_general_iff_partial (atol rtol : Rat) (ha : 0 ≤ atol) (n
     majEq atol rtol (mmul a b) (mmul b a) = true ↔
       ∀ s t, s < 2 ^ n → melM (mmul a b) t s = melM (mmul b a) t s :=
   commutes_general_iff atol rtol ha n a b sa sb hexact
+
+/-! ## `is_hermitian(InteractionOperator)` -/
+
+/-- FULL STATEMENT: `is_hermitian(InteractionOperator)` is True iff the denoted operator is
+Hermitian.  Proved: the soundness direction in the exact regime (`hexact`: tensor entries closer
+than the tolerance are equal) — if the coded test (normal-ordered tensors of the operator and of
+`hermitian_conjugated(operator)` compared with `PolynomialTensor.__eq__`) is True, the operator
+`c + Σ one[p,q] a†_p a_q + Σ two[p,q,r,s] a†_p a†_q a_r a_s` equals its formal adjoint (conjugated
+constant, `T.conj()` tensors) in EVERY algebra satisfying the CAR.  The completeness direction
+(every Hermitian operator is recognised whatever the storage of its two-body tensor — the
+direction of the seeded entry-wise-comparison defect) needs the canonicity of the normal tensor
+form and is covered by the `is-hermitian-interaction` oracle stream only. -/
+theorem is_hermitian_io_sound_partial {A : Type} [Ring A] (I : Proofs.C03.Interp A)
+    (car_same : ∀ x l : Factor, x.2 = l.2 → x.1 ≠ l.1 → I.g l * I.g x + I.g x * I.g l = 0)
+    (car_sq : ∀ x l : Factor, x.2 = l.2 → x.1 = l.1 → I.g l * I.g x = 0)
+    (tol : Rat) (n : Nat) (c : GQ) (one two : List GQ) (hlen : one.length = n * n)
+    (hexact : ∀ x y : GQ, (x - y).normSq < tol * tol → x = y)
+    (h : isHermitianIO tol n c one two = true) :
+    Proofs.C03.denIO I n c one two =
+      Proofs.C03.denIO I n c.conj (hcOneBody n one) (hcTwoBody n two) :=
+  Proofs.C03.isHermitianIO_sound I car_same car_sq tol n c one two hlen hexact h
 
 end OFV.C02
